@@ -7,6 +7,6 @@ spec=dict(prop=sys.argv[1],harness=sys.argv[2],params=json.loads(sys.argv[3]),sh
 r=run_job(spec)
 for k in ('paths','goals','unsat','sat','unknown','vacuous_paths','aborted','covers','wall_s','engine','solve','unknown_goals'): print(k, r.get(k))
 for e in r['errors']: print(e)
-for c in r['cex'][:3]: print(json.dumps(c)[:1500])
+for c in r["cex"][:int(__import__("os").environ.get("NCEX","3"))]: print(json.dumps(c)[:1500])
 import collections
 print(collections.Counter((c['goal'].split('[')[0], tuple(c['regions'])) for c in r['cex']))
